@@ -370,10 +370,10 @@ Example C01_dyn_example :
   = Some (RDForeignName (B "totalItems")).
 Proof. split; vm_compute; reflexivity. Qed.
 
-(* where the decoder model has no answer for a probe (left out of the comparison, on both sides): an instant in an
-   item position (10: outside the URL grammar of Model/Url.v), and strings that are no instant / no duration in an
-   instant / duration position (time.Parse and xsd.Unmarshal on malformed text are not modelled) - nothing else *)
+(* where the decoder model has no answer for a probe (left out of the comparison, on both sides): strings that are no
+   instant / no duration in an instant / duration position (time.Parse and xsd.Unmarshal on malformed text are not
+   modelled) - nothing else (an instant in an item position is read by the wider asIRI model since builder b33) *)
 Example C01_dyn_abstentions :
   abstentions jr_tables dyn_rec
-  = [(B "JSONGetItem", [10]); (B "JSONGetTime", [1; 2; 11]); (B "JSONGetDuration", [1; 2; 10])]%nat.
+  = [(B "JSONGetTime", [1; 2; 11]); (B "JSONGetDuration", [1; 2; 10])]%nat.
 Proof. vm_compute. reflexivity. Qed.
